@@ -327,6 +327,7 @@ def run(prop, tier, replay):
     # 4. judge ------------------------------------------------------------------------------------------------------
     states = trans = 0
     mc_info = []
+    cov_all, took_all = {}, {}
     for f in families:
         r = mc_results[f]
         if r["violated"]:
@@ -341,13 +342,18 @@ def run(prop, tier, replay):
             for st in v["hist"]:
                 if st.get("r") == "ok":
                     took[st["op"]] = took.get(st["op"], 0) + 1
-        zero = [a for a in ALL_OP_NAMES if took.get(a, 0) == 0] + [k for k, n in cov.items() if n == 0]
-        if zero or len(cov) < 8:
-            raise vlib.ToolError(f"vacuous model run {f}: calls that never took effect / disjuncts never taken: {zero} {cov}")
+        for k, n in cov.items():
+            cov_all[k] = cov_all.get(k, 0) + n
+        for k, n in took.items():
+            took_all[k] = took_all.get(k, 0) + n
         states += r.get("distinct", 0)
         trans += r.get("generated", 0)
         mc_info.append({"family": f, "distinct": r.get("distinct"), "generated": r.get("generated"), "depth": r.get("depth"),
                         "wall_s": r["wall_s"], "next_disjunct_coverage": cov, "calls_answered_ok_in_final_histories": took})
+    # vacuity: over the families of the tier together, every disjunct of Next was taken and every call took effect
+    zero = [a for a in ALL_OP_NAMES if took_all.get(a, 0) == 0] + [k for k, n in cov_all.items() if n == 0]
+    if zero or len(cov_all) < 8:
+        raise vlib.ToolError(f"vacuous model runs: calls that never took effect / disjuncts never taken: {zero} {cov_all}")
     mc_info.append({"family": "witness (as-built deviations, pruned once witnessed)", "distinct": wit.get("distinct"),
                     "generated": wit.get("generated"), "wall_s": wit["wall_s"]})
     bad_scn, classes = set(), {}
@@ -358,7 +364,8 @@ def run(prop, tier, replay):
     for n in need:
         if counts.get(n, 0) == 0:
             raise vlib.ToolError(f"vacuous history run: no {n} was judged ({counts})")
-    accepted = len(scenarios) - len(bad_scn)
+    # (the validator keeps at most 25 entries per class of failure; its counters count every failing scenario / event)
+    accepted = len(scenarios) - max(len(bad_scn), counts.get("bad_scenarios", 0))
     phases["validated"] = round(time.time() - t0, 1)
     rc = out.finish()
     vlib.write_evidence(prop, tier, "model_checking", {
@@ -371,8 +378,9 @@ def run(prop, tier, replay):
                 "step and every probe after it was accepted by Trace_Namespace",
         "exhaustive": False, "exhaustive_note": "the model runs are exhaustive for their bounds; the replayed histories are a sample",
         "histories": {"scenarios": len(scenarios), "accepted": accepted, "events": events, "counts": counts, "generation": gen_info},
-        "judgements_not_accepted": [{"invariant": k[0], "deviation": k[1], "what": k[2], "cause": k[3], "events": n}
+        "judgements_not_accepted": [{"invariant": k[0], "deviation": k[1], "what": k[2], "cause": k[3], "events_kept": n}
                                     for k, n in sorted(classes.items())],
+        "judgements_not_accepted_note": "at most 25 events are kept per class and trace shard; histories.counts.bad_events is the total",
         "model_runs": mc_info, "as_built_deviation_witnesses": dev_info, "simulation": gstats,
         "harness_build_s": build_s, "phases_s": phases,
     }, time.time() - t0, len(out.violations), assumptions)
